@@ -157,6 +157,7 @@ struct Key12 { int32_t k; int32_t pad[2]; };
 static var Key4 = Cello(Key4);
 static var Key12 = Cello(Key12);
 static int keyw = 8;
+static int elemt = 0;           /* 1: the containers hold the pointers in inline 1-Tuples (element / value type Tuple) instead of Refs */
 static var hkey_type(void) { return keyw == 4 ? Key4 : keyw == 12 ? Key12 : Int; }
 static var key_fill(var b4, var b12, var bi, int k) {
   if (keyw == 4) { ((struct Key4*)b4)->k = k; return b4; }
@@ -179,8 +180,8 @@ static uintptr_t __attribute__((noinline)) make(int id, int kind, int mode, int 
   var a1 = NULL, a2 = NULL;
   var idobj = $I(id);                 /* function scope: a compound literal dies with its block */
   if (kind == K_NODE || kind == K_ANODE) a1 = idobj;
-  if (kind == K_ARRAY || kind == K_LIST) a1 = Ref;
-  if (kind == K_TABLE || kind == K_TREE) { a1 = hkey_type(); a2 = Ref; }
+  if (kind == K_ARRAY || kind == K_LIST) a1 = elemt ? Tuple : Ref;
+  if (kind == K_TABLE || kind == K_TREE) { a1 = hkey_type(); a2 = elemt ? Tuple : Ref; }
   if (kind == K_TABLEK || kind == K_TREEK) { a1 = Ref; a2 = Int; }
   if (kind == K_BOX) a1 = P(pointee);
   if (kind == K_REF) {          /* new(Ref, NULL) would raise: allocate, leave the pointer empty */
@@ -316,7 +317,8 @@ static int __attribute__((noinline)) real_main(int argc, char** argv) {
   while (hc_next(f)) {
     alarm(60);
     if (hc_is(0, "keyw")) { keyw = (int)hc_int(1); continue; }
-    if (hc_is(0, "reset")) { keyw = 8; cur_exec++; ev_begin("reset"); ev_int("line", cur_line); ev_end(); continue; }
+    if (hc_is(0, "elemt")) { elemt = (int)hc_int(1); continue; }
+    if (hc_is(0, "reset")) { keyw = 8; elemt = 0; cur_exec++; ev_begin("reset"); ev_int("line", cur_line); ev_end(); continue; }
     if (hc_is(0, "at")) { next_slot = (long)hc_int(1); continue; }
     if (hc_is(0, "new")) {
       int id = (int)hc_int(1), kind = kind_of(hc_w[2]);
@@ -344,7 +346,7 @@ static int __attribute__((noinline)) real_main(int argc, char** argv) {
       observe("link", s, slot, d, hc_exc);
     } else if (hc_is(0, "cpush")) {
       int c = (int)hc_int(1), d = (int)hc_int(2);
-      if (tab[c].kind == K_TUPLE) HC_TRY(push(P(c), P(d))); else HC_TRY(push(P(c), $R(P(d))));
+      if (tab[c].kind == K_TUPLE) HC_TRY(push(P(c), P(d))); else if (elemt) HC_TRY(push(P(c), tuple(P(d)))); else HC_TRY(push(P(c), $R(P(d))));
       observe("cpush", c, d, 0, hc_exc);
     } else if (hc_is(0, "cpop")) {
       int c = (int)hc_int(1);
@@ -353,7 +355,7 @@ static int __attribute__((noinline)) real_main(int argc, char** argv) {
     } else if (hc_is(0, "cset")) {
       int c = (int)hc_int(1), k = (int)hc_int(2), d = (int)hc_int(3);
       var key = KEYOBJ(k);
-      HC_TRY(set(P(c), key, $R(P(d))));
+      if (elemt) HC_TRY(set(P(c), key, tuple(P(d)))); else HC_TRY(set(P(c), key, $R(P(d))));
       observe("cset", c, k, d, hc_exc);
     } else if (hc_is(0, "crem")) {
       int c = (int)hc_int(1), k = (int)hc_int(2);
